@@ -53,14 +53,16 @@ CLAIMS = {
     "C18": ("Theorems C18_eq_debug / C18_ne_debug / C18_eq_hash / C18_refl / C18_sym / C18_trans for all tnode pairs (field-by-field models "
             "of the derived / hand-written Eq, Hash, Debug). Tie: every pair of results over all sub-inputs of one String: ==, two "
             "hashers, Debug, clone, second parse; three run orders + fresh processes (statelessness is checked on the code, not claimed by "
-            "a theorem).", "DESIGN.md §4 C18"),
+            "a theorem); containers whose direct elements are sequences; the span-free raw combinators of harness/unitskip (SKIP in 0..3): == iff "
+            "same {:?}, != is not ==, equal hash, clone, on every parsed value.", "DESIGN.md §4 C18"),
     "C20": ('Theorems C20_boxing_sound (for every rule list no cycle of the mention graph runs through unboxed rules only: the round cap never '
             'stops the analysis early), C20_boxing_minimal, C20_boxing_invariant, C20_boxing_off, C20_boxing_example; C20_opt_raw_partial (raw '
             'and optimized translation coincide where the optimizer only added RestoreOnErr), witness C20_refuted_skip (known finding F6). '
             'Ties: V1b (boxed flag of every rule! the real generator emits with box_only_if_needed on/off == Model/Boxing.v, recursion-biased '
             'seeded grammars, + acyclicity of the unboxed graph evaluated on the real flags); token-stream hashes across fresh processes; '
             'parsing-relevant generator output under every representation-only option set == default (gen_dump); V1 for both AST paths; a '
-            'corpus compiled with pest_optimizer = false against the raw model and the PEG spec; compile matrix of recursive grammars under '
+            'corpus compiled with pest_optimizer = false against the raw model and the PEG spec; the skip-until node of the optimizer against the '
+            'expression it replaces on every string and every Span / Position sub-input (catalogue pairs); compile matrix of recursive grammars under '
             'option sets.',
             'DESIGN.md §4 C20, §10'),
     "C03": ("Theorem C03_check_is_parse (all environments, expressions, states, fuel): tcheck = erase . tparse incl. stack and tracker "
@@ -72,7 +74,9 @@ CLAIMS = {
             "C05_pred_restores; witness C05_refuted_before_fix. Tie: stack family of the catalogue + exhaustive pest::Stack op "
             "histories; oracle = aparse.", "DESIGN.md §4 C05"),
     "C06": ("Theorems over the regenerated index functions (C06_slice_spec, translator tie T1) and the slice spec; stack built-ins "
-            "on the reference interpreter; tie: slices family (all a,b in the tier's range x stack depth 0..4 from the input).",
+            "on the reference interpreter and (C06_real_*) on the REAL path through the logical content of the bug-for-bug pest::Stack model: "
+            "PUSH pushes exactly the matched span, POP / PEEK / DROP / PEEK_ALL / POP_ALL / PEEK[a..b] effects, graceful failure and the total "
+            "forms for parse and check path, never a half-popped stack, empty and negative slices; tie: slices family (all a,b in the tier's range x stack depth 0..4 from the input).",
             "DESIGN.md §4 C06"),
     "C19": ("Theorems C19_rep_bounds (reference interpreter: exactly the greedy run of consecutive units, MIN <= count <= MAX, cursor at "
             "the end of the last matched unit, failure only below MIN), C19_rep_bounds_impl / C19_rep_fails_impl (real parse path, via "
@@ -90,9 +94,11 @@ CLAIMS = {
     "C13": ("Theorems C13_new / C13_get / C13_split / C13_lines_span / C13_lines / C13_merge / C13_eq for all strings and spans; tie: "
             "exhaustive small strings x all (start,end) pairs x all sub-ranges / span pairs against pest::Span and the model.",
             "DESIGN.md §4 C13"),
-    "C14": ("Theorems C14_total_repaired / C14_total_position (no panic for any input), C14_rows_of_the_code (exact characterisation), "
+    "C14": ("(the display width of a STRING is an arbitrary function in every theorem: nothing is assumed about emoji / ZWJ / VS16 sequences) "
+            "Theorems C14_total_repaired / C14_total_position (no panic for any input), C14_rows_of_the_code (exact characterisation), "
             "C14_rows_partial under the decidable exclusion of the known class, witnesses C14_refuted_*; tie: exhaustive small strings x "
-            "all spans/positions incl. recording FormatOption against the model and an independent oracle; known finding F4b "
+            "all spans/positions incl. recording FormatOption against the model and an independent oracle, display-width classes and a sequence "
+            "corpus measured with the real string widths of unicode-width; known finding F4b "
             "(span starting at a line start is rendered from the previous line; pinned by an existing test).", "DESIGN.md §4 C14"),
     "C04": ("Theorems C04_full_iff / C04_check_iff / C04_eoi_attempt (try_parse = Ok iff prefix parse + trailing skip (none for atomic "
             "kinds) + at end; tree of the prefix parse), C04_no_success_with_unread, C04_no_reject_at_end; against pest's own semantics "
@@ -116,7 +122,8 @@ CLAIMS = {
             "C10_head_line_no_panic / C10_entry_report_head_renders (Model/ReportHead.v = the head of the message, `&line[..byte index of the "
             "(col-1)-th char]`: never panics at the location any entry point reports, and is the text between the last LF and that location), "
             "C10_head_line_example. Tie: the head text and the indentation of the real message vs the model (RP field); "
-            "Tracker::finish() and the rendered report lines of the real code vs the model for every run; location checks; the harness "
+            "Tracker::finish() and the rendered report lines of the real code vs the model for every run; location checks on the tracker AND "
+            "on the Error handed to the user (location = furthest position, not before the matched prefix, line / column = pest's); the harness "
             "re-derives every rendered line from finish(); rendering twice + second process; semantic audit on the real code (expected "
             "rules re-run at the reported location).",
             "DESIGN.md §4 C10, §10"),
